@@ -283,6 +283,9 @@ def _run_native(
         statistics.pause_timer.paused_time += core.last_run_paused_seconds
         statistics.storage_mode = core.storage_mode
         statistics.speculation_stats = core.speculation_stats
+        if last_ops is not None:
+            # non-empty only when the run was stopped by an exception (an older prebuilt core has no such list)
+            last_ops.extend(getattr(core, 'last_run_last_ops', ()))
 
     statistics.op_counter = op_count
     if last_ops is not None:
